@@ -390,8 +390,23 @@ def _run_csrf(ctx, res, w, rng, n, Harvest) -> None:
                 sender = b
             if kind == 'tamper':
                 j = rng.randrange(len(token))
-                mode = rng.choice(['flip', 'truncate', 'case', 'append'])
-                if mode == 'flip':
+                mode = rng.choice(['flip', 'truncate', 'case', 'append', 'junk', 'junk', 'unused-bits', 'unused-bits'])
+                if mode == 'junk':
+                    # characters outside the base64 alphabet, which a lenient decoder skips
+                    raw = unquote(token)
+                    k = rng.randrange(1, len(raw))
+                    token = raw[:k] + rng.choice(['.', '-', ' ', '\n', '!', '_']) + raw[k:]
+                elif mode == 'unused-bits':
+                    # the last character before the padding carries bits that are not part of the data
+                    raw = unquote(token)
+                    body = raw.rstrip('=')
+                    alphabet = 'ABCDEFGHIJKLMNOPQRSTUVWXYZabcdefghijklmnopqrstuvwxyz0123456789+/'
+                    if body and body[-1] in alphabet and len(raw) != len(body):
+                        c = alphabet[alphabet.index(body[-1]) ^ 1]
+                        token = body[:-1] + c + raw[len(body):]
+                    else:
+                        token = raw + '='
+                elif mode == 'flip':
                     c = token[j]
                     token = token[:j] + ('A' if c != 'A' else 'B') + token[j + 1:]
                 elif mode == 'truncate':
